@@ -41,6 +41,86 @@ def generate(tier: str) -> fx.TlcResult:
     return res
 
 
+SESSION_CFG = """INIT Init
+NEXT Next
+CONSTANTS
+  Operands = {operands}
+  MaxAtoms = {atoms}
+  MaxOps = {ops}
+INVARIANT HeapMeaning
+INVARIANT HeapSizes
+INVARIANT InversesInvert
+INVARIANT ReducedNormal
+INVARIANT Emit
+CHECK_DEADLOCK FALSE
+"""
+SESSION_OPERANDS_Q = ['A', 'D', 'DI', 'AI', 'H2', 'I2v', 'G', 'R1']
+SESSION_OPERANDS_T = ['A', 'B', 'D', 'DI', 'AI', 'H2', 'I2v', 'G', 'GT', 'R1', 'R1T', 'Hw', 'Pr', 'PrT', 'Tz']
+
+
+def generate_sessions(tier: str) -> fx.TlcResult:
+    """MC_Session.tla: histories of API calls (arithmetic, .T, .I, reduce()) on a heap of operators."""
+    if tier == 'quick':
+        cfg = SESSION_CFG.format(operands=tla_set(SESSION_OPERANDS_Q), atoms=2, ops=2)
+    else:
+        cfg = SESSION_CFG.format(operands=tla_set(SESSION_OPERANDS_T), atoms=2, ops=3)
+    res = fx.run_tlc('MC_Session', cfg, workers=6)
+    if res.violated:
+        raise fx.MachineryError(f'MC_Session violates {res.violated}:\n' + res.stdout[-3000:])
+    return res
+
+
+def execute_session(case: dict) -> dict:
+    import terms
+    from redcheck import _close
+
+    b = terms.Builder()
+    out = {'id': case['id'], 'raised': None}
+    heap = []
+    atoms = iter(case['atoms'])
+    last_raised = None
+    for e in case['hist']:
+        op = e['op']
+        try:
+            if op == 'new':
+                heap.append(b.build(next(atoms)))
+                continue
+            a = heap[e['i'] - 1]
+            if op in ('matmul', 'add', 'sub'):
+                r = _apply(op, a, heap[e['j'] - 1])
+            elif op == 'neg':
+                r = -a
+            elif op == 'scale':
+                r = -1.5 * a
+            elif op == 'T':
+                r = a.T
+            elif op == 'I':
+                r = a.I
+            elif op == 'reduce':
+                r = a.reduce()
+            else:
+                raise ValueError(op)
+            heap.append(r)
+        except Exception as exc:
+            heap.append(None)
+            last_raised = f'{type(exc).__name__}: {str(exc)[:160]}'
+    r = heap[-1]
+    if r is None:
+        out['raised'] = last_raised
+        return out
+    out['type'] = type(r).__name__
+    try:
+        M = terms.dense_of(r)
+        want = terms.mat_to_float(case['den'])
+        if not case['err']:
+            tol = 3e-4 if not any(e['op'] == 'I' for e in case['hist']) else 2e-3
+            out['ok'], out['err'] = _close(M, want, tol)
+            out['sizes_ok'] = (int(r.out_size()), int(r.in_size())) == (want.shape[0], want.shape[1])
+    except Exception as exc:
+        out['apply_raised'] = f'{type(exc).__name__}: {str(exc)[:160]}'
+    return out
+
+
 def _scalar(n: int, d: int, kind: str):
     import jax.numpy as jnp
     import numpy as np
@@ -125,7 +205,8 @@ def judge(cases, results, verd, mode):
     acc = 0
     for r in results:
         c = by_id[r['id']]
-        label = f"{mode}:" + ' '.join(c['expr'])
+        label = f"{mode}:" + (' '.join(c['expr']) if 'expr' in c else
+                              'session ' + ' '.join(f"{e['op']}({e['n'] or e['i']}{',' + str(e['j']) if e['j'] else ''})" for e in c['hist']))
         if c['err']:
             if r['raised'] is None:
                 verd.report(f'accepted_incompatible:{label}', 'incompatible_operands_accepted', c, r)
@@ -148,7 +229,11 @@ def judge(cases, results, verd, mode):
 def run(tier: str, seed: int) -> int:
     t0 = time.time()
     verd = fx.Verdicts(PROP)
-    gen = generate(tier)
+    from concurrent.futures import ThreadPoolExecutor
+
+    with ThreadPoolExecutor(max_workers=2) as pool:
+        j1, j2 = pool.submit(generate, tier), pool.submit(generate_sessions, tier)
+        gen, ses = j1.result(), j2.result()
     cases = gen.cases
     for c in cases:
         c['id'] = fx.case_id({'e': c['expr']})
@@ -164,8 +249,21 @@ def run(tier: str, seed: int) -> int:
     else:
         picked = cases
     picked.sort(key=lambda c: c['expr'][1])
+    sessions = ses.cases
+    for c in sessions:
+        c['id'] = fx.case_id({'h': c['hist']})
+    if tier == 'quick':
+        spick, _ = fx.stratified_sample(sessions, lambda c: tuple(e['op'] for e in c['hist'] if e['op'] != 'new') + (c['err'],), 25, seed)
+        if len(spick) > 1500:
+            spick = rng.sample(spick, 1500)
+    else:
+        spick = sessions
+    spick.sort(key=lambda c: [e['n'] for e in c['hist'] if e['op'] == 'new'])
     acc = 0
     n = 0
+    sres = fx.replay('c02', 'execute_session', spick, x64=False, procs=fx.NPROC, chunksize=max(4, len(spick) // 48))
+    acc += judge(spick, sres, verd, 'x32')
+    n += len(sres)
     for x64 in (False, True):
         sub = picked if (tier != 'quick' or not x64) else picked[::4]
         res = fx.replay('c02', 'execute', sub, x64=x64, procs=fx.NPROC, chunksize=max(4, len(sub) // 48))
@@ -173,14 +271,16 @@ def run(tier: str, seed: int) -> int:
         n += len(res)
     rc = verd.finish()
     fx.write_evidence(PROP, tier, seed, {
-        'states': gen.distinct, 'transitions': gen.generated, 'traces_validated_against_impl': acc,
+        'states': gen.distinct + ses.distinct, 'transitions': gen.generated + ses.generated, 'traces_validated_against_impl': acc,
         'evaluations': n,
         'distinct_nontrivial': fx.nontrivial_count(picked, lambda c: not c['err']),
         'rule': 'sessions = one or two dunder calls (@, +, -, unary -, +, k*, *k, /k) over 18 operands of every kind '
                 '(plain, composition, sum, identity, scalar operator, lazy inverse next to its operand, incompatible '
                 'structures) and 5 scalar kinds; all one-call sessions replayed, two-call sessions all (thorough) or '
                 'stratified by operations and refusal (quick); non-trivial = the expression is accepted; x64 off and on',
-        'exhaustive': len(picked) == len(cases), 'emitted_sessions': len(cases), 'replayed': len(picked),
+        'exhaustive': len(picked) == len(cases) and len(spick) == len(sessions), 'emitted_sessions': len(cases), 'replayed': len(picked),
+        'heap_sessions': {'emitted': len(sessions), 'replayed': len(spick), 'distinct_states': ses.distinct,
+                          'note': 'MC_Session.tla: histories of new / @ / + / - / neg / scale / .T / .I / reduce() on a heap'},
         'samples': [picked[0]['expr'], picked[len(picked) // 2]['expr'], picked[-1]['expr']],
     }, ['singular operands of lazy inverses excluded; NumPy ndarray left factors are handled by NumPy itself',
         'associativity is checked by TLC on all triples (ASSUME) and on the replayed two-call sessions of both groupings'],
